@@ -6,11 +6,12 @@ Open Scope list_scope.
 Lemma nspec_recombine n : nspec (recombine n) = nspec n.
 Proof.
   destruct n as [sp ph kids]. destruct ph; simpl; auto.
-  destruct sp as [z|e|p cs|cs|c|cs]; simpl; auto.
+  destruct sp as [z|e|p cs|cs|c|cs|cs]; simpl; auto.
   - destruct (first_ko kids); auto. destruct (all_ok kids); auto.
   - destruct (first_ko kids); auto. destruct (all_ok kids); auto. destruct (nth_error cs (length kids)); auto.
   - destruct kids as [|k [|k2 r]]; auto. destruct (nphase k) as [| | |[v|e]]; auto.
   - destruct (forallb kid_done kids); auto. destruct (first_ko kids); auto. destruct (all_ok kids); auto.
+  - destruct (forallb kid_done kids); auto. destruct (all_ok kids); auto.
 Qed.
 
 Lemma recombine_not_eval sp ph kids : ph <> PEval -> recombine (Node sp ph kids) = Node sp ph kids.
@@ -38,8 +39,9 @@ Proof.
     + cbn [do_finish]. rewrite nspec_recombine. reflexivity.
     + cbn [do_finish]. rewrite nspec_recombine. reflexivity.
     + cbn [do_finish]. rewrite nspec_recombine. reflexivity.
+    + cbn [do_finish]. rewrite nspec_recombine. reflexivity.
   - intros [sp ph kids] o'; destruct ph; simpl; auto; discriminate.
-  - intros [sp ph kids] H. destruct ph; try exact H. destruct sp as [z|e|p cs|cs|c|cs]; cbn [do_finish].
+  - intros [sp ph kids] H. destruct ph; try exact H. destruct sp as [z|e|p cs|cs|c|cs|cs]; cbn [do_finish].
     + constructor; simpl; auto. intros o [= <-]. constructor.
     + constructor; simpl; auto. intros o [= <-]. constructor.
     + apply recombine_WF.
@@ -47,6 +49,9 @@ Proof.
       * simpl. rewrite map_map. simpl. apply map_id.
     + apply recombine_WF; [constructor|]. simpl. repeat split; [lia|]. intros i k Hn. destruct i; discriminate.
     + constructor; [constructor; [apply WF_idle|constructor]|reflexivity|discriminate].
+    + apply recombine_WF.
+      * apply Forall_forall. intros x Hx. apply in_map_iff in Hx. destruct Hx as (c & <- & _). apply WF_idle.
+      * simpl. rewrite map_map. simpl. apply map_id.
     + apply recombine_WF.
       * apply Forall_forall. intros x Hx. apply in_map_iff in Hx. destruct Hx as (c & <- & _). apply WF_idle.
       * simpl. rewrite map_map. simpl. apply map_id.
